@@ -31,6 +31,7 @@ def build_c(run):
     t1, t2, t3, tc = G.gsm_time(fn)
     run.add(Obligation(ID, "spec.gsm_time", "lemma.recompose_after_decompose", [fn >= 0, fn < G.HYPERFRAME],
                        51 * ((t3 - t2) % 26) + t3 + 1326 * t1 == fn, kind="lemma", tag={"side": "c", "func": "lemma"}))
+    K.finish(run)
 
 
 build = build_c
